@@ -163,6 +163,26 @@ Ev(e) ==
     [] OTHER        -> LET c == Ev(e.c)  a == Ev(e.a)  b == Ev(e.b) IN
                        IF ~c.ok \/ ~a.ok \/ ~b.ok THEN Bad ELSE Cond(c.v, a.t, a.v, b.t, b.v)
 
+(* ---- pointers into an array (6.5.6p8-9, 6.5.8p5, 6.5.9p6) --------------
+   A pointer value is the index k of the array element it points to, 0 <= k <= n
+   (k = n: one past the last element).  The integer operand of + and - contributes
+   its *value*, whatever its type (no conversion: an unsigned int >= 2^31 moves
+   forward).  p - q has type ptrdiff_t = long; comparisons have type int.
+   Result type "ptr" marks a pointer result (value = element index).              *)
+PtrArithOps == {"padd", "pradd", "psub"}          \* p + i, i + p, p - i
+PtrRelOps   == {"pdiff", "plt", "ple", "pgt", "pge", "peq", "pne"}
+PtrArith(op, k, i, n) ==
+  LET r == IF op = "psub" THEN ZSub(k, i) ELSE ZAdd(k, i)
+  IN Res(ZLe(Z0, r) /\ ZLe(r, n), "ptr", r)       \* 6.5.6p8: otherwise undefined
+PtrRel(op, k1, k2) ==
+  CASE op = "pdiff" -> Res(TRUE, "long", ZSub(k1, k2))
+    [] op = "plt" -> Res(TRUE, "int", ZBool(ZLt(k1, k2)))
+    [] op = "ple" -> Res(TRUE, "int", ZBool(ZLe(k1, k2)))
+    [] op = "pgt" -> Res(TRUE, "int", ZBool(ZLt(k2, k1)))
+    [] op = "pge" -> Res(TRUE, "int", ZBool(ZLe(k2, k1)))
+    [] op = "peq" -> Res(TRUE, "int", ZBool(k1 = k2))
+    [] OTHER      -> Res(TRUE, "int", ZBool(k1 # k2))
+
 (* ---- contexts: the implicit conversion each context performs ---------- *)
 (* initializer / argument / return / simple assignment (6.5.16.1p2, 6.5.2.2p7, 6.8.6.4p3):
    the value is converted to the destination type; an assignment expression
